@@ -338,7 +338,7 @@ def libm(s, st, name, a):
         use('fmod(x,y)=x-n*y, |r|<|y|, sign of x', z3.And(z3.Implies(z3.And(x >= 0, y > 0), z3.And(r >= 0, r < y)), z3.Implies(z3.And(x <= 0, y > 0), z3.And(r <= 0, r > -y))))
     # monotonicity instances against earlier applications of the same function
     mono = {'exp': 1, 'sqrt': 1, 'erfc': -1, 'erf': 1, 'atan': 1, 'log': 1, 'sinh': 1, 'tanh': 1, 'cbrt': 1}.get(name)
-    if mono and sum(1 for a_ in st.apps if a_[0] == name) <= 6:      # pairwise instances only while there are few applications
+    if mono and s.libm_mono and sum(1 for a_ in st.apps if a_[0] == name) <= 6:      # pairwise instances only while there are few applications
         for (n_, args_, r_) in st.apps:
             if n_ == name:
                 y = args_[0]
